@@ -29,7 +29,7 @@ use serde_json::json;
 use crate::{
     SimError,
     model::{SCHEMA_T1, Stmt, render_sv},
-    node::{Knobs, Node, R, seeded_actor, stmt},
+    node::{Knobs, Node, R, seeded_actor, snapshot_dir, stmt},
     rng::Rng,
     t1::{RunCfg, gen_::Gen},
     trace::{RunOutcome, Stats, Violation, fnv},
@@ -75,13 +75,18 @@ pub enum Ev {
     Attach { sub: usize, mode: u8, back: u64 },
     /// the slow client reads what it can (up to `n` events; 0 = until caught up)
     ClientRead { client: usize, n: usize },
+    /// the subscriber node stops and starts again (C13). kind: 0 = graceful (production
+    /// order: tripwire, tasks, `late` transaction while subscriptions drain, drop_handles),
+    /// 1 = killed at this instant, 2 = killed in the middle of a graceful shutdown (after the
+    /// tripwire, before the subscriptions finished), 3 = killed right after a new
+    /// subscription `template` was requested (creation / initial query in flight)
+    RestartS { kind: u8, late: Option<Vec<Stmt>>, template: usize },
 }
 
 struct Sub {
     template: usize,
     sql: String,
     id: uuid::Uuid,
-    handle: MatcherHandle,
     body: Body,
     pending: Vec<u8>,
     rows: BTreeMap<u64, Vec<SqliteValue>>,
@@ -127,6 +132,9 @@ struct World {
     stats: Stats,
     log: Vec<String>,
     known_hits: Vec<String>,
+    dir: std::path::PathBuf,
+    seed: u64,
+    incarnation: u32,
 }
 
 fn vio(prop: &str, class: &str, detail: serde_json::Value) -> Violation {
@@ -191,7 +199,17 @@ impl World {
                 return Err(SimError::Harness(format!("schema: {:?}", resp.results)));
             }
         }
-        Ok(World { s, p, p_outbox: vec![], subs: vec![], listeners: vec![], clients: vec![], stats: Stats::default(), log: vec![], known_hits: vec![] })
+        Ok(World { s, p, p_outbox: vec![], subs: vec![], listeners: vec![], clients: vec![], stats: Stats::default(), log: vec![], known_hits: vec![], dir: dir.to_path_buf(), seed, incarnation: 0 })
+    }
+
+    /// The subscription's handle, looked up when needed: the simulator must not keep a clone
+    /// (a subscription only finishes once every handle is gone).
+    fn h(&self, idx: usize) -> R<MatcherHandle> {
+        self.s
+            .agent
+            .subs_manager()
+            .get(&self.subs[idx].id)
+            .ok_or_else(|| SimError::Harness(format!("subscription handle gone: {}", self.subs[idx].sql)))
     }
 
     async fn query_node(&self, sql: &str) -> R<Vec<String>> {
@@ -228,8 +246,10 @@ impl World {
         let Some(id) = id else {
             return Ok(Err(vio("C11", "supported-query-rejected", json!({"class": class, "sql": sql, "status": status.as_u16()}))));
         };
-        let handle = self.s.agent.subs_manager().get(&id).ok_or_else(|| SimError::Harness("no handle".into()))?;
-        let mut sub = Sub { template, sql: sql.to_string(), id, handle, body, pending: vec![], rows: BTreeMap::new(), last_change: 0, events_since_flush: 0, last_result: vec![], dead: false };
+        if self.s.agent.subs_manager().get(&id).is_none() {
+            return Err(SimError::Harness("no handle".into()));
+        }
+        let mut sub = Sub { template, sql: sql.to_string(), id, body, pending: vec![], rows: BTreeMap::new(), last_change: 0, events_since_flush: 0, last_result: vec![], dead: false };
         // initial snapshot
         let start = Instant::now();
         let mut eoq = false;
@@ -322,7 +342,7 @@ impl World {
         }
         let table = TEMPLATES[self.subs[idx].template % TEMPLATES.len()].1;
         let before = verif::batches_done();
-        if self.subs[idx].handle.changes_tx().send(sentinel(table)).await.is_err() {
+        if self.h(idx)?.changes_tx().send(sentinel(table)).await.is_err() {
             return Ok(Err(vio("C11", "matcher-stopped", json!({"sql": self.subs[idx].sql}))));
         }
         let start = Instant::now();
@@ -334,7 +354,7 @@ impl World {
         }
         // everything the matcher emitted for this batch is now in its change log
         let max_id: u64 = {
-            let conn = self.subs[idx].handle.pool().get().await.map_err(|e| SimError::Harness(e.to_string()))?;
+            let conn = self.h(idx)?.pool().get().await.map_err(|e| SimError::Harness(e.to_string()))?;
             conn.query_row("SELECT COALESCE(MAX(id), 0) FROM changes", [], |r| r.get(0))?
         };
         let start = Instant::now();
@@ -386,8 +406,8 @@ impl World {
         let expected = self.query_node(&sql).await?;
         // materialised rows
         let materialised: Vec<String> = {
-            let conn = self.subs[idx].handle.pool().get().await.map_err(|e| SimError::Harness(e.to_string()))?;
-            let ncols = self.subs[idx].handle.parsed_columns().len();
+            let conn = self.h(idx)?.pool().get().await.map_err(|e| SimError::Harness(e.to_string()))?;
+            let ncols = self.h(idx)?.parsed_columns().len();
             let cols: Vec<String> = (0..ncols).map(|i| format!("col_{i}")).collect();
             let mut st = conn.prepare(&format!("SELECT {} FROM query", cols.join(",")))?;
             let mut rows = st.query([])?;
@@ -538,7 +558,7 @@ impl World {
         let params = serde_json::from_value(params).map_err(|e| SimError::Harness(e.to_string()))?;
         let (evt_tx, evt_rx) = tokio::sync::mpsc::channel(1);
         tokio::spawn(klukai_agent::api::public::pubsub::catch_up_sub(
-            self.subs[sub].handle.clone(),
+            self.h(sub)?,
             params,
             tx.subscribe(),
             evt_tx,
@@ -685,6 +705,198 @@ impl World {
         Ok(Ok(()))
     }
 
+    fn sub_state_on_disk(&self, dir: &Path, id: uuid::Uuid) -> Option<String> {
+        let p = dir.join("subscriptions").join(id.as_simple().to_string()).join("sub.sqlite");
+        if !p.exists() {
+            return None;
+        }
+        let conn = rusqlite::Connection::open_with_flags(&p, rusqlite::OpenFlags::SQLITE_OPEN_READ_ONLY).ok()?;
+        conn.query_row("SELECT value FROM meta WHERE key = 'state'", [], |r| r.get::<_, String>(0)).ok()
+    }
+
+    /// C13: stop the subscriber node (gracefully or not) and start it again.
+    async fn restart_s(&mut self, kind: u8, late: Option<&[Stmt]>, template: usize) -> R<Result<(), Violation>> {
+        let kind = kind % 4;
+        // nothing is held back across a restart
+        verif::gate_release("bcast");
+        self.s.quiesce().await?;
+        self.p.quiesce().await?;
+        for (_, c) in std::mem::take(&mut self.p.outbox) {
+            self.p_outbox.push(c);
+        }
+        let _ = std::mem::take(&mut self.s.outbox);
+        // streams of the old process end with it
+        self.clients.clear();
+        self.listeners.clear();
+        let actor = seeded_actor(self.seed, 0);
+        let old_dir = self.s.dir.clone();
+        let mut fresh_unclean: Option<uuid::Uuid> = None;
+        let graceful = kind == 0;
+        match kind {
+            0 => {
+                self.stats.fault("graceful-restart");
+                self.s.stop_tasks().await;
+                if let Some(stmts) = late {
+                    // a transaction committing while the subscriptions are still draining
+                    self.stats.fault("transaction-during-shutdown");
+                    let api = stmts.iter().map(|s| stmt(&s.sql, s.params.iter().map(|p| p.to_param()).collect())).collect();
+                    let (status, resp) = self.s.write(api, None).await?;
+                    self.log.push(format!("late write: {status} {:?}", resp.version));
+                    let _ = std::mem::take(&mut self.s.outbox);
+                }
+                self.s.agent.subs_manager().drop_handles().await;
+                // the process exits once every subscription task has finished (wait_for_all_pending_handles)
+                let start = Instant::now();
+                loop {
+                    let pending: Vec<String> = self
+                        .subs
+                        .iter()
+                        .filter(|s| self.sub_state_on_disk(&old_dir, s.id).as_deref() != Some("completed"))
+                        .map(|s| s.sql.clone())
+                        .collect();
+                    if pending.is_empty() {
+                        break;
+                    }
+                    if start.elapsed() > Duration::from_secs(30) {
+                        return Ok(Err(vio("C13", "subscription-not-marked-complete-by-graceful-shutdown", json!({"sql": pending}))));
+                    }
+                    tokio::time::sleep(Duration::from_millis(2)).await;
+                }
+            }
+            _ => {
+                if kind == 2 {
+                    self.stats.fault("killed-during-graceful-shutdown");
+                    self.s.stop_tasks().await;
+                } else if kind == 3 {
+                    self.stats.fault("killed-while-subscription-is-being-created");
+                    let (_, _, sql) = TEMPLATES[template % TEMPLATES.len()];
+                    if !self.subs.iter().any(|s| s.sql == sql) {
+                        let params = serde_json::from_value(json!({})).map_err(|e| SimError::Harness(e.to_string()))?;
+                        let resp = api_v1_subs(
+                            Extension(self.s.agent.clone()),
+                            Extension(self.s.subs_cache.clone()),
+                            Extension(self.s.tripwire.clone()),
+                            Query(params),
+                            Json(Statement::Simple(sql.to_string())),
+                        )
+                        .await;
+                        fresh_unclean = resp.headers().get("corro-query-id").and_then(|v| v.to_str().ok()).and_then(|s| s.parse::<uuid::Uuid>().ok());
+                    }
+                } else {
+                    self.stats.fault("killed");
+                }
+                self.incarnation += 1;
+                let nd = self.dir.join(format!("s-{}", self.incarnation));
+                snapshot_dir(&old_dir, &nd)?;
+                self.s.trip().await;
+                self.s.dir = nd;
+            }
+        }
+        let new_dir = self.s.dir.clone();
+        let states: Vec<Option<String>> = self.subs.iter().map(|s| self.sub_state_on_disk(&new_dir, s.id)).collect();
+        let fresh = Node::boot(0, new_dir.clone(), actor, Knobs::default()).await?;
+        let old = std::mem::replace(&mut self.s, fresh);
+        drop(old);
+        self.log.push(format!("restart kind {kind}: states {states:?}"));
+        let subs = std::mem::take(&mut self.subs);
+        for (mut sub, state) in subs.into_iter().zip(states) {
+            self.stats.oracle_checks += 1;
+            let params = serde_json::from_value(json!({"from": sub.last_change})).map_err(|e| SimError::Harness(e.to_string()))?;
+            let resp = klukai_agent::api::public::pubsub::api_v1_sub_by_id(
+                Extension(self.s.agent.clone()),
+                Extension(self.s.subs_cache.clone()),
+                Extension(self.s.tripwire.clone()),
+                axum::extract::Path(sub.id),
+                Query(params),
+            )
+            .await;
+            let status = resp.status().as_u16();
+            let dir_exists = new_dir.join("subscriptions").join(sub.id.as_simple().to_string()).exists();
+            if !graceful {
+                // previous run did not finish cleanly: gone, clients are told to resubscribe
+                if status == 200 || self.s.agent.subs_manager().get(&sub.id).is_some() {
+                    return Ok(Err(vio("C13", "subscription-served-after-unclean-stop", json!({"sql": sub.sql, "state_on_disk": state, "kind": kind}))));
+                }
+                if dir_exists {
+                    return Ok(Err(vio("C13", "unclean-subscription-not-removed", json!({"sql": sub.sql, "state_on_disk": state}))));
+                }
+                self.stats.probe("c13.unclean-discarded");
+                continue;
+            }
+            if sub.dead {
+                // (known finding: its state already differs from its query)
+                continue;
+            }
+            if status != 200 {
+                return Ok(Err(vio("C13", "subscription-lost-by-graceful-restart", json!({"sql": sub.sql, "status": status, "state_on_disk": state}))));
+            }
+            let Some(handle) = self.s.agent.subs_manager().get(&sub.id) else {
+                return Ok(Err(vio("C13", "subscription-lost-by-graceful-restart", json!({"sql": sub.sql, "status": status, "note": "no handle"}))));
+            };
+            sub.body = resp.into_body().boxed_unsync();
+            sub.pending.clear();
+            // its change log must lead from what the subscriber saw to the present result
+            let max_id: u64 = {
+                let conn = handle.pool().get().await.map_err(|e| SimError::Harness(e.to_string()))?;
+                conn.query_row("SELECT COALESCE(MAX(id), 0) FROM changes", [], |r| r.get(0))?
+            };
+            if max_id < sub.last_change {
+                return Ok(Err(vio("C13", "change-log-lost-changes-across-restart", json!({"sql": sub.sql, "seen_before": sub.last_change, "log_max": max_id}))));
+            }
+            let start = Instant::now();
+            while sub.last_change < max_id {
+                if start.elapsed() > Duration::from_secs(30) {
+                    return Ok(Err(vio("C13", "resume-after-restart-stalled", json!({"sql": sub.sql, "last_seen": sub.last_change, "log_max": max_id}))));
+                }
+                for line in read_lines(&mut sub.body, &mut sub.pending, Duration::from_millis(30)).await? {
+                    let ev: QueryEvent = serde_json::from_slice(&line)?;
+                    match ev {
+                        QueryEvent::Change(kind, rowid, cells, ChangeId(id)) => {
+                            if id != sub.last_change + 1 {
+                                return Ok(Err(vio("C13", "change-ids-not-consecutive-across-restart", json!({"previous": sub.last_change, "got": id, "sql": sub.sql}))));
+                            }
+                            sub.last_change = id;
+                            match kind {
+                                ChangeType::Delete => {
+                                    sub.rows.remove(&rowid.0);
+                                }
+                                _ => {
+                                    sub.rows.insert(rowid.0, cells);
+                                }
+                            }
+                        }
+                        QueryEvent::Error(e) => {
+                            return Ok(Err(vio("C13", "resume-after-restart-failed", json!({"error": e.to_string(), "sql": sub.sql}))));
+                        }
+                        _ => {}
+                    }
+                }
+            }
+            sub.events_since_flush = 0;
+            self.subs.push(sub);
+            let idx = self.subs.len() - 1;
+            self.stats.probe("c13.restored");
+            // materialised rows and the replayed log must equal the query on the database now
+            match self.check_sub(idx, true).await? {
+                Ok(()) => {}
+                Err(mut v) => {
+                    v.property = "C13".into();
+                    v.class = format!("after-graceful-restart-{}", v.class);
+                    return Ok(Err(v));
+                }
+            }
+        }
+        if let Some(id) = fresh_unclean {
+            if self.s.agent.subs_manager().get(&id).is_some() {
+                return Ok(Err(vio("C13", "subscription-served-after-unclean-stop", json!({"note": "killed during creation", "state_on_disk": self.sub_state_on_disk(&new_dir, id)}))));
+            }
+            if new_dir.join("subscriptions").join(id.as_simple().to_string()).exists() {
+                return Ok(Err(vio("C13", "unclean-subscription-not-removed", json!({"note": "killed during creation"}))));
+            }
+        }
+        Ok(Ok(()))
+    }
+
     async fn exec(&mut self, ev: &Ev) -> R<Result<(), Violation>> {
         self.stats.steps += 1;
         match ev {
@@ -805,6 +1017,10 @@ impl World {
                 let _ = std::mem::take(&mut self.s.outbox);
                 Ok(Ok(()))
             }
+            Ev::RestartS { kind, late, template } => {
+                self.stats.ev("RestartS");
+                self.restart_s(*kind, late.as_deref(), *template).await
+            }
             Ev::Flush => {
                 self.stats.ev("Flush");
                 // nothing may be held back at a flush point
@@ -831,7 +1047,12 @@ impl World {
 }
 
 pub fn generate(seed: u64) -> Vec<Ev> {
-    let mut r = Rng::new(seed).fork("t4");
+    generate_for(seed, "C11")
+}
+
+pub fn generate_for(seed: u64, check: &str) -> Vec<Ev> {
+    let lifecycle = check == "C13";
+    let mut r = Rng::new(seed).fork(if lifecycle { "t4-lifecycle" } else { "t4" });
     let mut g = Gen::new(seed);
     let wl = RunCfg {
         nodes: 2, keys: r.range(2, 5), max_events: 0, max_writes: 0, w_write: 0, w_deliver: 0, w_apply: 0, w_clear: 0, w_sync: 0,
@@ -849,7 +1070,7 @@ pub fn generate(seed: u64) -> Vec<Ev> {
     }
     let n_subs = r.range(1, 3);
     for _ in 0..n_subs {
-        let t = if r.chance(0.2) { 7 + r.usize_below(3) } else { r.usize_below(7) };
+        let t = if !lifecycle && r.chance(0.2) { 7 + r.usize_below(3) } else { r.usize_below(7) };
         evs.push(Ev::Subscribe { template: t });
     }
     if r.chance(0.7) {
@@ -868,6 +1089,23 @@ pub fn generate(seed: u64) -> Vec<Ev> {
                 evs.push(Ev::Deliver { mode: r.below(4) as u8 });
             }
             evs.push(Ev::ReleaseBcast);
+            continue;
+        }
+        if lifecycle && r.chance(0.12) {
+            // stop points: with unflushed candidates (no Flush before), right after a flush,
+            // with a transaction committing while the subscriptions drain
+            if r.chance(0.3) {
+                evs.push(Ev::Flush);
+            }
+            let kind = r.weighted(&[55, 20, 15, 10]) as u8;
+            let late = if kind == 0 && r.chance(0.5) { Some(g.gen_write(&wl, 0)) } else { None };
+            evs.push(Ev::RestartS { kind, late, template: r.usize_below(7) });
+            if kind != 0 || r.chance(0.3) {
+                // after an unclean stop clients resubscribe
+                for _ in 0..r.range(1, 2) {
+                    evs.push(Ev::Subscribe { template: r.usize_below(7) });
+                }
+            }
             continue;
         }
         if r.chance(0.15) {
@@ -928,6 +1166,7 @@ pub async fn run_events(seed: u64, events: &[Ev], base: &Path, tag: &str) -> R<R
             Ev::ReleaseBcast => "R".into(),
             Ev::Attach { mode, .. } => format!("T{mode}"),
             Ev::ClientRead { n, .. } => format!("c{}", (*n).min(2)),
+            Ev::RestartS { kind, late, .. } => format!("X{kind}{}", late.is_some() as u8),
         };
         fnv(&mut sh, s.as_bytes());
     }
